@@ -814,6 +814,26 @@ silent('c12-from-copy-import', 'C12',
 silent('c12-local-alias', ['C12', 'C11'],
        [(POL, "                check = default.check\n                if default.deprecated_rule:", "                reg = default\n                check = reg.check\n                if default.deprecated_rule:")])
 
+# memo / once-only state in the default merge
+silent('c12-warn-once', ['C10', 'C11', 'C12'],
+       [(POL, '            if not (\n                self.suppress_deprecation_warnings\n                or self.suppress_default_change_warnings\n            ):\n                warnings.warn(deprecated_msg)\n\n            return OrCheck([default.check, deprecated_rule.check])', '            if default.name not in self._default_change_reported:\n                self._default_change_reported.add(default.name)\n                if not (\n                    self.suppress_deprecation_warnings\n                    or self.suppress_default_change_warnings\n                ):\n                    warnings.warn(deprecated_msg)\n\n            return OrCheck([default.check, deprecated_rule.check])'), (POL, '        self._policy_dir_mtimes = {}\n        self._file_cache = {}\n', '        self._policy_dir_mtimes = {}\n        self._file_cache = {}\n        self._default_change_reported = set()\n        self._deprecated_checks = {}\n')])
+fire('c12-warn-once-result', 'C12',
+     [(POL, '            if not (\n                self.suppress_deprecation_warnings\n                or self.suppress_default_change_warnings\n            ):\n                warnings.warn(deprecated_msg)\n\n            return OrCheck([default.check, deprecated_rule.check])', '            if default.name not in self._default_change_reported:\n                self._default_change_reported.add(default.name)\n                if not (\n                    self.suppress_deprecation_warnings\n                    or self.suppress_default_change_warnings\n                ):\n                    warnings.warn(deprecated_msg)\n\n                return OrCheck([default.check, deprecated_rule.check])'), (POL, '        self._policy_dir_mtimes = {}\n        self._file_cache = {}\n', '        self._policy_dir_mtimes = {}\n        self._file_cache = {}\n        self._default_change_reported = set()\n        self._deprecated_checks = {}\n')], 'C12.ONCE(MEMO)')
+fire('c10-memo-handler', 'C10',
+     [(POL, '                    check = self._handle_deprecated_rule(default)\n', '                    check = self._deprecated_checks.get(default.name)\n                    if check is None:\n                        check = self._handle_deprecated_rule(default)\n                        self._deprecated_checks[default.name] = check\n'), (POL, '        self._policy_dir_mtimes = {}\n        self._file_cache = {}\n', '        self._policy_dir_mtimes = {}\n        self._file_cache = {}\n        self._default_change_reported = set()\n        self._deprecated_checks = {}\n')], 'C10.DEFAULTS(MEMO)')
+fire('c11-record-old-wins', 'C11',
+     [(POL, '        if overwrite:\n            self.file_rules = {}\n        parsed_file = parse_file_contents(data)\n', '        parsed_file = parse_file_contents(data)\n        loaded = {n: RuleDefault(n, c) for n, c in parsed_file.items()}\n        if overwrite:\n            self.file_rules = {}\n        self.file_rules = {**loaded, **self.file_rules}\n')], 'C11.RECORD')
+silent('c11-record-new-wins', ['C10', 'C11', 'C12'],
+       [(POL, '        if overwrite:\n            self.file_rules = {}\n        parsed_file = parse_file_contents(data)\n', '        parsed_file = parse_file_contents(data)\n        loaded = {n: RuleDefault(n, c) for n, c in parsed_file.items()}\n        if overwrite:\n            self.file_rules = {}\n        self.file_rules = {**self.file_rules, **loaded}\n')])
+fire('c11-record-setdefault', 'C11',
+     [(POL, "            self.file_rules[name] = file_rule\n", "            self.file_rules.setdefault(name, file_rule)\n")], 'C11.RECORD')
+fire('c09-lookup-returns-unfound', 'C09',
+     [(POL, "        raise cfg.ConfigFilesNotFoundError((path,))\n\n    def enforce(", "        return path\n\n    def enforce(")], 'C09.SKIP')
+fire('c01-hasattr-add-check', 'C01',
+     [(P, "        if isinstance(check1, _checks.AndCheck):\n", "        if hasattr(check1, 'add_check'):\n")], 'C01')
+silent('c01-hasattr-pop-check', ['C01', 'C02'],
+       [(P, "        if isinstance(check1, _checks.AndCheck):\n", "        if hasattr(check1, 'add_check') and isinstance(check1, _checks.AndCheck):\n")])
+
 # ------------------------------------------------------------------ C20
 fire('c20-clear-then-update', 'C20',
      [(POL, "        if overwrite:\n            self.rules = Rules(rules, self.default_rule)\n        else:",
